@@ -6,26 +6,33 @@ from common import fr, qs, qcoq, hexf, run_impl, run_model, coq_eval
 import qsp_common as Q
 
 LEVEL = "proof"
-TECHNIQUE = ("Coq theorems for every d and every alpha (transcendental kernel as an oracle): 2d phases, palindrome, entry formulas of the "
-             "interleaving / reversal / halving, gamma-vs-delta dataflow; |T_L| <= 1 on [-1,1] and the fixed-point corollary of the "
-             "closed form; soundness (logical relation) of the complex-interval evaluation of the alternating reflection sequence "
-             "R prod_k Z(phi_k) R, which encloses the success probability at any overlap lambda = a^2. Per run the generator's phases "
-             "are compared with the exact layout model and the enclosed probability with the closed form at sampled overlaps and with "
-             "the bound 1 - delta^2 above the fixed-point width; call sequences in one process (gamma / delta / d varied)")
-LEVEL_TEXT = ("Props/C18.v: 7 theorems. Layout and option dataflow are decided for all d, alpha; the probability evaluator is proved sound "
-              "for every overlap. The closed form itself (the YLC identity jointly in d, delta, lambda) is NOT proved: it is compared at "
-              "sampled overlaps against a floating-point evaluation of 1 - delta^2 T_L(T_{1/L}(1/delta) sqrt(1-lambda))^2.")
-LEVEL_NOTE = ("Trusted: Coq kernel, extraction, driver.ml, harness, numpy as executor; the closed form is evaluated with math.cosh / acosh / "
-              "cos / acos (float oracle) at the sampled overlaps. Axioms: stdlib real-number axioms + Classical_Prop.classic. Residual: "
-              "'for every lambda' is covered for the evaluator and the corollary, but equality with the closed form is checked on a "
-              "grid of overlaps only.")
+TECHNIQUE = ("Coq theorems (Props/C18.v, 13): for every d and alpha the layout (2d phases, palindrome, entry formulas of the interleaving / "
+             "reversal / halving) and the gamma-vs-delta dataflow; the alternating reflection sequence R prod_k Z(phi_k) R is, up to a unit "
+             "scalar and a diagonal similarity, the Wx QSP product of the phases (pi/2, phi_k - pi/2, 0); Chebyshev product / doubling "
+             "identities for all real x; T_L strictly increasing on [1,oo) so that y = T_{1/L}(1/delta) lies in an exactly checked rational "
+             "bracket; |T_L| <= 1 on [-1,1] (fixed-point corollary); and soundness of the verified checker check_fp_closed: it computes, in "
+             "400-bit interval Laurent-polynomial arithmetic, the success probability P(t) and 1 - delta^2 T_L(y sin t)^2 for y in the "
+             "bracket and bounds the coefficient 1-norm of their difference, which bounds |P(lambda) - closed form| for EVERY lambda in "
+             "[0,1]. Per run the generator's phases (as exact rationals) go through that checker (tolerance 1e-9), the layout model and a "
+             "sampled enclosure of the probability; call sequences in one process (gamma / delta / d varied)")
+LEVEL_TEXT = ("Props/C18.v: 13 theorems. For every generated phase vector the closed form is certified for all lambda in [0,1] by a checker "
+              "whose soundness is a Coq theorem (C18_closed_form_certificate, with C18_y_bracket tying y to delta); the layout and option "
+              "dataflow hold for all d, alpha. What is sampled is (d, delta): d = 1..25 and larger values up to 200, delta in "
+              "{1e-3 .. 0.9}; the identity as one theorem jointly in (d, delta) for ideal real angles is not proved.")
+LEVEL_NOTE = ("Trusted: Coq kernel, extraction, driver.ml, harness, numpy as executor. The rational bracket of y is proposed by the harness "
+              "(untrusted) and re-checked exactly by check_y_bracket. Axioms: stdlib real-number axioms, Classical_Prop.classic, "
+              "functional_extensionality_dep (Coquelicot). Residual: (d, delta) are sampled; floats math.cosh/acosh only propose the bracket "
+              "and place the sampled overlaps.")
 RULE = ("d = 1..25 and {40, 79, 100, 150, 200} (quick: 1..12, 25, 79, 90, 200), delta in {1e-3, 0.1, 0.3, 0.5, 0.9}; per (d, delta): delta "
         "path, gamma path, return_alpha, repeated in one process with other gammas in between; 24 overlaps incl. 0, 1 and the fixed-point "
         "width; distinct by JSON; non-trivial = d >= 2")
 TRUSTED = ["Coq 8.16.1 kernel", "extraction (ExtrOcamlBasic, ExtrOcamlZBigInt) + driver.ml + zarith", "harness (impl_runner.py, impl_handlers5.py)",
-           "numpy as executor; math.cosh/acosh/cos/acos for the closed form at sampled overlaps"]
+           "numpy as executor; math.cosh/acosh/cos/acos only for the sampled-overlap sub-check and to propose the y bracket"]
 ASSUME = ["success probability = |<0| R prod_k diag(e^{i phi_k}, e^{-i phi_k}) R |0>|^2 with R = [[a, s],[s, -a]], a = sqrt(lambda) (QSVT-convention "
           "alternating reflections, 2d+1 signal reflections)"]
+
+
+CERT_TOL = Fraction(1, 10 ** 9)
 
 
 def closed_form(d, delta, a):
@@ -34,6 +41,45 @@ def closed_form(d, delta, a):
     x = y * math.sqrt(max(0.0, 1 - a * a))
     T = math.cos(L * math.acos(x)) if abs(x) <= 1 else math.cosh(L * math.acosh(x))
     return 1 - delta * delta * T * T
+
+
+def ybracket(d, dq, s=420):
+    """exact rational bracket [lo, hi], hi - lo = 2^(1-s), of the root y >= 1 of delta*T_L(y) = 1 (the Coq side re-checks it exactly:
+    check_y_bracket).  Integer arithmetic on y = m/2^s; Newton steps with a float derivative, then a +-1 ulp bracket."""
+    L = 2 * d + 1
+    S2 = 1 << (2 * s)
+    top = dq.denominator << (s * L)
+
+    def val(m):        # delta*T_L(m/2^s) - 1, as (numerator over 2^(sL) * den(delta))
+        a, b = 1, m
+        for _ in range(L - 1):
+            a, b = b, 2 * m * b - S2 * a
+        return dq.numerator * b - top
+
+    delta = float(dq)
+    y0 = math.cosh(math.acosh(1 / delta) / L)
+    m = max(1 << s, int(Fraction(y0) * (1 << s)))
+    u = math.acosh(max(y0, 1.0 + 1e-300))
+    deriv = delta * L * (math.sinh(L * u) / math.sinh(u) if u > 1e-8 else L)      # d/dy of delta*T_L(y)
+    dfr = Fraction(deriv)
+    for _ in range(14):
+        v = val(m)
+        step = (Fraction(v, top) / dfr) * (1 << s)
+        st = int(step)
+        if st == 0:
+            break
+        m = max(1 << s, m - st)
+    lo, hi = m - 1, m + 1
+    lo = max(lo, 1 << s)
+    k = 1
+    while val(lo) > 0 and lo > (1 << s):
+        lo = max(1 << s, lo - k)
+        k *= 4
+    k = 1
+    while val(hi) < 0:
+        hi += k
+        k *= 4
+    return Fraction(lo, 1 << s), Fraction(hi, 1 << s)
 
 
 def run(ctx):
@@ -87,13 +133,30 @@ def run(ctx):
         pts = [(a, closed_form(d, delta, a)) for a in avals]
         lines.append("(fpprob %s (%s))" % (Q.qlist(ph_delta), " ".join("(%s %s)" % (qs(fr(a)), qs(fr(p))) for a, p in pts)))
         keep.append((c, "prob", (pts, gamma, width)))
+        # all overlaps at once: the closed-form certificate (Props/C18.v: C18_closed_form_certificate)
+        ylo, yhi = ybracket(d, fr(delta))
+        lines.append("(fpclosed %d %s %s %s %s %s)" % (d, Q.qlist(ph_delta), qs(fr(delta)), qs(ylo), qs(yhi), qs(CERT_TOL)))
+        keep.append((c, "closed", (ph_delta, float(yhi - ylo))))
     mod = run_model(lines, timeout=3000)
+    pend_closed = []
     for (c, what, x), m in zip(keep, mod):
         if isinstance(m, str):
             ctx.infra_fail("extracted model failed (%s): %s" % (what, m))
             continue
         d, delta = c["d"], c["delta"]
-        if what == "layout":
+        if what == "closed":
+            ph, wdt = x
+            ok, brk, norm = m[0], m[1], m[2]
+            ctx.instance_obligations += 1
+            if str(brk) != "1":
+                ctx.infra_fail("harness: the rational bracket of y = T_{1/L}(1/delta) (d=%d, delta=%g, width %.1e) is rejected by check_y_bracket" % (d, delta, wdt))
+            elif str(ok) == "1":
+                ctx.instance_discharged += 1
+                ctx.bucket("closed-form certificate accepted (all lambda in [0,1])")
+            else:
+                nv = Q.scaled_to_float(norm) if norm != "ERR" else float("inf")
+                pend_closed.append((c, ph, nv))
+        elif what == "layout":
             if [Fraction(v) for v in m] != [fr(v) for v in x]:
                 ctx.fail("fpsearch", c, "phases are not the interleaved / reversed / halved alpha angles (phivec[2k] = -alpha[d-1-k]/2, phivec[2k+1] = -alpha[k]/2)")
         else:
@@ -113,5 +176,24 @@ def run(ctx):
             else:
                 ctx.instance_obligations += 1
                 ctx.instance_discharged += 1
-    ctx.residual.append("equality with the YLC closed form is checked at sampled overlaps against a float evaluation; the identity jointly in "
-                        "(d, delta, lambda) is not proved")
+    # a rejected certificate: search a dense grid of overlaps for a concrete failing lambda
+    for c, ph, nv in pend_closed:
+        d, delta = c["d"], c["delta"]
+        avals = [i / 400 for i in range(401)]
+        pts = [(a, closed_form(d, delta, a)) for a in avals]
+        r = run_model(["(fpprob %s (%s))" % (Q.qlist(ph), " ".join("(%s %s)" % (qs(fr(a)), qs(fr(p))) for a, p in pts))], timeout=3000)[0]
+        worst = None
+        if not isinstance(r, str):
+            for (a, p), dist in zip(pts, r):
+                if dist != "ERR":
+                    dv = Q.scaled_to_float(dist)
+                    if dv > 1e-9 and (worst is None or dv > worst[1]):
+                        worst = (a, dv, p)
+        if worst is not None:
+            ctx.fail("fpsearch", c, "closed-form certificate rejected (certified bound %.3e); at overlap lambda=%.9f the success probability is at distance %.3e from "
+                                    "1 - delta^2 T_L(T_{1/L}(1/delta) sqrt(1-lambda))^2 = %.12f" % (nv, worst[0] ** 2, worst[1], worst[2]))
+        else:
+            ctx.infra_fail("check_fp_closed rejects the phases of generate(d=%d, delta=%g): certified bound on sup_lambda |P - closed form| is %.3e > %.1e; "
+                           "no failing overlap found on a 401-point grid" % (d, delta, nv, float(CERT_TOL)))
+    ctx.residual.append("the YLC closed form is certified for all lambda in [0,1] per generated phase vector (d, delta sampled); the identity as a "
+                        "theorem jointly in (d, delta) for the ideal real-valued angles is not proved")
